@@ -32,7 +32,7 @@ var props = map[string][]family{
 	"C07": {famConc},
 	"C07R": {famStress},
 	"C12": {famAlias},
-	"C17": {famPanic},
+	"C17": {famPanic, famSplit},
 	"C18": {famAlloc},
 }
 
